@@ -151,6 +151,11 @@ func (d *averageSpeed) Decor(s Statistics) (string, int) {
 		speed := float64(s.Current) / float64(time.Since(d.start))
 		d.msg = d.producer(speed * 1e9)
 	}
+	if d.msg == "" {
+		// first frame of a bar which has completed already
+		speed := float64(s.Current) / float64(time.Since(d.start))
+		d.msg = d.producer(speed * 1e9)
+	}
 	return d.Format(d.msg)
 }
 
